@@ -42,8 +42,9 @@ type oIface struct {
 	opaque *oOpaque
 }
 type oOpaque struct {
-	name   string
-	bounds *oStruct // what Bounds() returns
+	name    string
+	bounds  *oStruct // what Bounds() returns
+	isError bool     // an error value (implements the error interface)
 }
 type oFunc struct {
 	lit  *ast.FuncLit
@@ -139,6 +140,9 @@ type oInterp struct {
 	oracle func(f *types.Func, res types.Type) (oval, bool)
 	// stub, when set, may answer a call to a repo function instead of interpreting it.
 	stub func(f *types.Func, recv oval, args []oval) ([]oval, bool)
+	// panic in flight: set by panic(v) and by run-time panics, cleared by recover()
+	panicActive bool
+	panicVal    oval
 }
 
 type oCtl int
@@ -208,6 +212,9 @@ func (it *oInterp) Call(fn *types.Func, recv oval, args []oval, depth int) ([]ov
 	if depth > it.maxDepth {
 		return nil, "inlining depth exceeded at " + fn.Name()
 	}
+	if depth == 0 {
+		it.panicActive, it.panicVal = false, nil
+	}
 	info := it.p.InfoOf(fn)
 	fr := &oFrame{it: it, info: info, env: &oEnv{vars: map[types.Object]*oval{}}, depth: depth}
 	if rv := receiverVar(info, fd); rv != nil {
@@ -229,7 +236,39 @@ func (it *oInterp) Call(fn *types.Func, recv oval, args []oval, depth int) ([]ov
 		}
 	}
 	ctl := fr.block(fd.Body.List)
+	hadDefers := len(fr.defers) > 0
 	fr.runDefers()
+	if strings.HasPrefix(fr.why, "panic:") && !it.panicActive {
+		// recovered by a deferred function: the function returns its (named) results
+		fr.why = ""
+		ctl = oReturn
+		hadDefers = true
+		if !fr.allNamed() {
+			fr.results = nil
+			for _, rv := range resultVars(info, fd.Type) {
+				_ = rv
+				fr.results = append(fr.results, oTop{"unnamed result after recover"})
+			}
+			if fd.Type.Results != nil {
+				fr.results = fr.results[:0]
+				for _, fld := range fd.Type.Results.List {
+					n := len(fld.Names)
+					if n == 0 {
+						n = 1
+					}
+					for k := 0; k < n; k++ {
+						fr.results = append(fr.results, it.zero(info.TypeOf(fld.Type)))
+					}
+				}
+			}
+		}
+	}
+	if hadDefers && fr.allNamed() && ctl == oReturn {
+		fr.results = nil
+		for _, rv := range fr.resVars {
+			fr.results = append(fr.results, fr.rvalue(*fr.env.lookup(rv)))
+		}
+	}
 	if strings.HasPrefix(fr.why, "panic:") {
 		return nil, fr.why
 	}
@@ -247,6 +286,10 @@ func (it *oInterp) Call(fn *types.Func, recv oval, args []oval, depth int) ([]ov
 func (fr *oFrame) abort(format string, a ...interface{}) oCtl {
 	if fr.why == "" {
 		fr.why = fmt.Sprintf(format, a...)
+		if strings.HasPrefix(fr.why, "panic:") && !fr.it.panicActive {
+			fr.it.panicActive = true
+			fr.it.panicVal = oIface{opaque: &oOpaque{name: "runtime error", isError: true}}
+		}
 	}
 	return oAbort
 }
@@ -287,11 +330,13 @@ func (fr *oFrame) stmt(s ast.Stmt) oCtl {
 			// return f() with tuple result
 			vs := fr.evalMulti(s.Results[0])
 			fr.results = vs
+			fr.setNamedResults()
 			return oReturn
 		}
 		for _, e := range s.Results {
 			fr.results = append(fr.results, fr.eval(e))
 		}
+		fr.setNamedResults()
 		return oReturn
 	case *ast.IfStmt:
 		saved := fr.env
@@ -686,6 +731,22 @@ func oEqual(a, b oval) (eq bool, ok bool) {
 		if _, ok := b.(oNil); ok {
 			return x.isNil(), true
 		}
+		if y, ok := b.(oSlice); ok && isStringT(x.typ) && isStringT(y.typ) {
+			if x.length() != y.length() {
+				return false, true
+			}
+			for i := 0; i < x.length(); i++ {
+				xi, ok1 := x.at(i).(oInt)
+				yi, ok2 := y.at(i).(oInt)
+				if !ok1 || !ok2 {
+					return false, false
+				}
+				if xi != yi {
+					return false, true
+				}
+			}
+			return true, true
+		}
 	case oNil:
 		switch y := b.(type) {
 		case oSlice:
@@ -726,6 +787,11 @@ func (fr *oFrame) evalMulti(e ast.Expr) []oval {
 			return []oval{oTop{"assertion on non-interface"}, oTop{"?"}}
 		}
 		want := fr.info.TypeOf(x.Type)
+		if iv.opaque != nil && iv.opaque.isError {
+			if wi, ok := want.Underlying().(*types.Interface); ok && (wi.NumMethods() == 0 || (wi.NumMethods() == 1 && wi.Method(0).Name() == "Error")) {
+				return []oval{iv, oBool(true)}
+			}
+		}
 		if iv.opaque != nil || iv.dyn == nil {
 			return []oval{fr.it.zero(want), oBool(false)}
 		}
@@ -806,6 +872,12 @@ func (fr *oFrame) eval(e ast.Expr) oval {
 		if s, ok := v.(*oStruct); ok && s != nil {
 			if fv, ok := s.fields[x.Sel.Name]; ok {
 				return fr.rvalue(fv)
+			}
+		}
+		if p, ok := v.(oPtr); ok && p.s == nil {
+			if sl := fr.info.Selections[x]; sl != nil && sl.Kind() == types.FieldVal {
+				fr.abort("panic: nil pointer dereference in %s at %s", src(x), fr.it.p.Position(x.Pos()))
+				return oTop{"nil dereference"}
 			}
 		}
 		return oTop{"selector " + src(x)}
@@ -914,11 +986,27 @@ func (fr *oFrame) eval(e ast.Expr) oval {
 			return oTop{"composite literal of " + t.String()}
 		}
 		s := fr.it.zero(t).(*oStruct)
+		fieldT := func(name string) types.Type {
+			for i := 0; i < st.NumFields(); i++ {
+				if st.Field(i).Name() == name {
+					return st.Field(i).Type()
+				}
+			}
+			return nil
+		}
+		put := func(name string, v oval) {
+			if ft := fieldT(name); ft != nil {
+				if _, isIface := ft.Underlying().(*types.Interface); isIface {
+					v = fr.toIface(v)
+				}
+			}
+			s.fields[name] = fr.rvalue(v)
+		}
 		for i, el := range x.Elts {
 			if kv, ok := el.(*ast.KeyValueExpr); ok {
-				s.fields[src(kv.Key)] = fr.eval(kv.Value)
+				put(src(kv.Key), fr.eval(kv.Value))
 			} else if i < st.NumFields() {
-				s.fields[st.Field(i).Name()] = fr.eval(el)
+				put(st.Field(i).Name(), fr.eval(el))
 			}
 		}
 		return s
@@ -1498,3 +1586,33 @@ func (fr *oFrame) runDefers() {
 	fr.defers = nil
 }
 
+
+func (fr *oFrame) allNamed() bool {
+	if len(fr.resVars) == 0 {
+		return false
+	}
+	for _, rv := range fr.resVars {
+		if rv == nil || fr.env.lookup(rv) == nil {
+			return false
+		}
+	}
+	return true
+}
+
+// setNamedResults mirrors `return a, b` into named result variables (deferred functions see them).
+func (fr *oFrame) setNamedResults() {
+	if !fr.allNamed() || len(fr.results) != len(fr.resVars) {
+		return
+	}
+	for i, rv := range fr.resVars {
+		fr.env.set(rv, fr.results[i])
+	}
+}
+
+func isStringT(t types.Type) bool {
+	if t == nil {
+		return false
+	}
+	b, ok := t.Underlying().(*types.Basic)
+	return ok && b.Info()&types.IsString != 0
+}
